@@ -295,9 +295,14 @@ def _trace_job(seeds):
             evs.append({'cols': cols, 'crits': [c for c, _ in pairs], 'sps': [s for _, s in pairs], 'n': n, 'seed': sd})
         consts = {(4, i): 2 ** i for i in range(n)}
         p = repo.Probe(forms, consts)
+        ses = p.session() if seeds and (seeds[0] // max(1, len(seeds))) % 2 else None      # every second batch: ONE Executor, blanks written as None
         for i, e in enumerate(evs):
-            ov = [(0, ci, ri, cell_value(c)) for ci, col in enumerate(e['cols']) for ri, c in enumerate(col) if c['k'] != 'blank']
-            r = p.eval(ov, idxs=(i,))[0]
+            if ses is not None:
+                full = [(0, ci, ri, cell_value(e['cols'][ci][ri]) if ci < len(e['cols']) else None) for ci in range(3) for ri in range(n)]
+                r = ses.eval(full, idxs=(i,))[0]
+            else:
+                ov = [(0, ci, ri, cell_value(c)) for ci, col in enumerate(e['cols']) for ri, c in enumerate(col) if c['k'] != 'blank']
+                r = p.eval(ov, idxs=(i,))[0]
             got = outcome(*r)
             if isinstance(got, (int, float)) and float(got).is_integer() and 0 <= got < 2 ** n:
                 e['obs'] = [b + 1 for b in range(n) if int(got) >> b & 1]
